@@ -70,29 +70,121 @@ def run(m, chk):
                 ctl += 1
                 break
     chk.extra["float_positive_controls_seen"] = ctl
-    # minimal point type
+    # minimal point type: a syntactic taint of "is a control point" / "is a container of control points"
     n = 0
     for q in MIN_POINT:
         ctx = r.root(q)
         fi = ctx.fi
-        cp = ("PF", 0, CURVE_FIELDS[1])
+        pts, conts = point_taint(fi)
+
+        def is_cont(e):
+            if isinstance(e, ast.Attribute) and e.attr == "ctrlpoints":
+                return True
+            if isinstance(e, ast.Name):
+                return e.id in conts
+            if isinstance(e, ast.Call) and isinstance(e.func, ast.Name) and e.func.id in ("tuple", "list") and e.args:
+                return is_cont(e.args[0])
+            if isinstance(e, (ast.ListComp, ast.GeneratorExp)):
+                return is_pt(e.elt, local=_comp_points(e, is_cont))
+            return False
+
+        def is_pt(e, local=frozenset()):
+            if isinstance(e, ast.Name):
+                return e.id in pts or e.id in local
+            if isinstance(e, ast.Subscript):
+                return is_cont(e.value)
+            if isinstance(e, ast.BinOp):
+                return is_pt(e.left, local) or is_pt(e.right, local)
+            if isinstance(e, ast.Call) and isinstance(e.func, ast.Name) and e.func.id in ("copy", "deepcopy") and e.args:
+                return is_pt(e.args[0], local)
+            return False
+
         for node in ast.walk(fi.node):
             l = rr = None
             if isinstance(node, ast.BinOp) and isinstance(node.op, (ast.Mult, ast.MatMult)):
                 l, rr = node.left, node.right
+                lp, rp = is_pt(l) or is_cont(l), is_pt(rr) or is_cont(rr)
             elif isinstance(node, ast.Call) and seg(node.func) in ("np.dot", "np.matmul", "np.tensordot", "np.inner") and len(node.args) >= 2:
                 l, rr = node.args[0], node.args[1]
-            if l is None:
-                continue
-            lv, rv = ctx.val(l), ctx.val(rr)
-            if lv is None or rv is None:
-                continue
-            lp = cp in lv.all_dep()
-            rp = cp in rv.all_dep()
-            if not (lp or rp):
+                lp, rp = is_cont(l) or is_pt(l), is_cont(rr) or is_pt(rr)
+            if l is None or not (lp or rp):
                 continue
             n += 1
             ok = not (lp and not rp)
             chk.ob("MIN-POINT", f"{q}: `{seg(node, 50)}` uses the points as right operand", ok, loc=r.loc(ctx, node),
                    detail="" if ok else f"{q}: `{seg(node, 60)}` multiplies `point * scalar` (points on the left): a user point type that only supports `scalar * point` and `point + point` (docs: custom objects) fails on this path", func=q, construct=f"point on the left: {seg(node, 40)}")
     chk.floor("MIN-POINT", "products involving control points on the listed paths", n, 4)
+
+
+def _comp_points(comp, is_cont):
+    out = set()
+    for g in comp.generators:
+        out |= _target_points(g.target, g.iter, is_cont)
+    return frozenset(out)
+
+
+def _target_points(target, it, is_cont):
+    out = set()
+    if isinstance(it, ast.Call) and isinstance(it.func, ast.Name) and it.func.id == "zip" and isinstance(target, ast.Tuple):
+        for t, a in zip(target.elts, it.args):
+            if isinstance(t, ast.Name) and is_cont(a):
+                out.add(t.id)
+    elif isinstance(it, ast.Call) and isinstance(it.func, ast.Name) and it.func.id == "enumerate" and isinstance(target, ast.Tuple) and len(target.elts) == 2 and it.args:
+        if isinstance(target.elts[1], ast.Name) and is_cont(it.args[0]):
+            out.add(target.elts[1].id)
+    elif isinstance(target, ast.Name) and is_cont(it):
+        out.add(target.id)
+    return out
+
+
+def point_taint(fi):
+    """names that hold a control point / a container of control points (flow-insensitive fixpoint)"""
+    pts, conts = set(), set()
+
+    def is_cont(e):
+        if isinstance(e, ast.Attribute) and e.attr == "ctrlpoints":
+            return True
+        if isinstance(e, ast.Name):
+            return e.id in conts
+        if isinstance(e, ast.Call) and isinstance(e.func, ast.Name) and e.func.id in ("tuple", "list") and e.args:
+            return is_cont(e.args[0])
+        if isinstance(e, (ast.ListComp, ast.GeneratorExp)):
+            loc = _comp_points(e, is_cont)
+            return is_pt(e.elt, loc)
+        if isinstance(e, ast.List):
+            return any(is_pt(x) for x in e.elts)
+        return False
+
+    def is_pt(e, local=frozenset()):
+        if isinstance(e, ast.Name):
+            return e.id in pts or e.id in local
+        if isinstance(e, ast.Subscript):
+            return is_cont(e.value)
+        if isinstance(e, ast.BinOp):
+            return is_pt(e.left, local) or is_pt(e.right, local)
+        if isinstance(e, ast.Call) and isinstance(e.func, ast.Name) and e.func.id in ("copy", "deepcopy") and e.args:
+            return is_pt(e.args[0], local)
+        return False
+
+    changed = True
+    while changed:
+        changed = False
+        for n in ast.walk(fi.node):
+            if isinstance(n, ast.Assign) and len(n.targets) == 1 and isinstance(n.targets[0], ast.Name):
+                nm = n.targets[0].id
+                if is_cont(n.value) and nm not in conts:
+                    conts.add(nm)
+                    changed = True
+                if is_pt(n.value) and nm not in pts:
+                    pts.add(nm)
+                    changed = True
+            elif isinstance(n, ast.For):
+                for x in _target_points(n.target, n.iter, is_cont):
+                    if x not in pts:
+                        pts.add(x)
+                        changed = True
+            elif isinstance(n, ast.Call) and isinstance(n.func, ast.Attribute) and n.func.attr == "append" and isinstance(n.func.value, ast.Name) and n.args and is_pt(n.args[0]):
+                if n.func.value.id not in conts:
+                    conts.add(n.func.value.id)
+                    changed = True
+    return pts, conts
